@@ -11,7 +11,10 @@ outputs unchanged; added inputs are distinct offered outputs, all of them reserv
 size_fee <= fee <= size_fee + cost_of_change + DUST; at most one change output, above DUST, to the change address;
 InsufficientFundsError only when the positive-effective-value outputs cannot cover the cost; nothing else is raised; after a
 failure nothing stays reserved; every database access of coin selection happens under the reservation lock.
-The selector alone is proved sound and complete on 3 candidates for every strategy.
+The selector alone is proved sound and complete on 2 (thorough: 3) candidates for every strategy.  The sqlite chooser
+(`get_and_reserve_spendable_utxos` + `_get_spendable_utxos`) is executed over a table model of 1..2 unreserved rows with symbolic
+amounts and confirmation flags (`chooser[n]`): flags exactly what it returns, covers the target with outputs worth spending,
+returns nothing only when they cannot cover it; `create[n,sqlite]` uses its call-site contract (FakeDb.get_spendable_utxos).
 Bounded part (labelled): the real Ledger + Database (sqlite) + Account: every strategy including the sqlite chooser,
 2..8 concurrent builds, failure at signing, release; plus larger candidate sets for the selector.
 """
@@ -362,6 +365,125 @@ for _s in STRATEGIES:
 make_selector_proof('standard', 3)
 
 
+# ------------------------------------------------------------------ the sqlite chooser's own body, against a two-row table model
+
+class FakeRowTable:
+    """call-site contract of the one SELECT and the one UPDATE the chooser issues: `execute` returns the unreserved rows whose amount
+    lies in [floor, ceiling), ascending by amount (ties: larger height first); `executemany` records the txoids it is asked to flag"""
+
+    def __init__(self, rows):
+        self.rows = rows            # [(txid, txoid, raw, height, nout, verified, amount)]
+        self.flagged = []
+        self.bands = []
+
+    def execute(self, sql, params):
+        floor, ceiling = params[0], params[1]
+        self.bands.append((floor, ceiling))
+        sel = [r for r in self.rows if floor <= r[6] and r[6] < ceiling]
+        if len(sel) == 2 and (sel[1][6] < sel[0][6] or (sel[1][6] == sel[0][6] and sel[1][3] > sel[0][3])):
+            sel = [sel[1], sel[0]]
+        return [dict(txid=r[0], txoid=r[1], raw=r[2], height=r[3], nout=r[4], is_verified=r[5], amount=r[6]) for r in sel]
+
+    def executemany(self, sql, params):
+        for flag, txoid in params:
+            self.flagged.append((flag, txoid))
+        return self
+
+    def fetchall(self):
+        return []
+
+
+RAW_P2PKH = [Transaction(height=5).add_inputs([Input.spend(utxo(2 * COIN, 7, 5))])
+             .add_outputs([Output.pay_pubkey_hash(COIN, bytes([k + 1]) * 20)]).raw for k in range(2)]
+
+
+def make_chooser_proof(n):
+    from lbry.wallet.database import get_and_reserve_spendable_utxos
+    types = dict(target=TInt(1, 10 ** 13), rate=FEE_RATE, floor=TOneOf(TConst(0), TConst(1)))
+    for i in range(n):
+        types[f"a{i}"] = TInt(1, 10 ** 13)
+        types[f"v{i}"] = TBool()
+
+    def run(**kw):
+        flags = []
+        for i in range(n):          # (a branch per flag: the chooser uses it inside a dictionary key)
+            if kw[f"v{i}"]:
+                flags.append(True)
+            else:
+                flags.append(False)
+        txoids = [f"{i + 1:02x}" * 32 + ':0' for i in range(n)]
+        rows = [(f"{i + 0xa1:02x}" * 32, txoids[i], RAW_P2PKH[i], 5 if flags[i] else -1, 0, flags[i], kw[f"a{i}"]) for i in range(n)]
+        table = FakeRowTable(rows)
+        txs = get_and_reserve_spendable_utxos(table, ('account',), kw['target'], kw['floor'], kw['rate'], True, False)
+        chosen = sorted(i for i in range(n) for key in txs if key[0] == RAW_P2PKH[i] and txs[key] == [0])
+        return chosen, sorted(txoids.index(t[1]) if t[1] in txoids else -1 for t in table.flagged), [t[0] for t in table.flagged], len(txs)
+
+    def ensures_flags_exactly_what_it_returns(result, **kw):
+        chosen, flagged, flags, ntx = result
+        return flagged == chosen and len(chosen) == ntx and all(f is True for f in flags)
+
+    def ensures_returned_outputs_cover_the_target_and_are_worth_spending(result, **kw):
+        chosen, flagged, flags, ntx = result
+        total = 0
+        ok = True
+        for i in chosen:
+            ok = ok and kw[f"a{i}"] > IN_SIZE * kw['rate']
+            total = total + kw[f"a{i}"] - IN_SIZE * kw['rate']
+        return ok and (len(chosen) == 0 or total >= kw['target'])
+
+    def ensures_empty_only_when_the_outputs_worth_spending_cannot_cover(result, **kw):
+        chosen, flagged, flags, ntx = result
+        total = 0
+        for i in range(n):
+            if kw[f"a{i}"] > IN_SIZE * kw['rate']:
+                total = total + kw[f"a{i}"] - IN_SIZE * kw['rate']
+        return implies(len(chosen) == 0, total < kw['target'])
+
+    def ensures_confirmed_first(result, **kw):
+        # an unconfirmed output is used only if the confirmed ones of its band did not suffice: with two rows in play, choosing
+        # only the unconfirmed one means the confirmed one is not worth spending or lies in a higher band
+        chosen, flagged, flags, ntx = result
+        if n < 2 or len(chosen) != 1:
+            return True
+        i = chosen[0]
+        j = 1 - i
+        return kw[f"v{i}"] or not kw[f"v{j}"] or kw[f"a{j}"] <= IN_SIZE * kw['rate'] or kw[f"a{j}"] > kw[f"a{i}"]
+
+    import inspect
+    params = [inspect.Parameter(x, inspect.Parameter.POSITIONAL_OR_KEYWORD) for x in types]
+    run.__signature__ = inspect.Signature(params)
+    clauses = dict(ensures_flags_exactly_what_it_returns=ensures_flags_exactly_what_it_returns,
+                   ensures_returned_outputs_cover_the_target_and_are_worth_spending=ensures_returned_outputs_cover_the_target_and_are_worth_spending,
+                   ensures_empty_only_when_the_outputs_worth_spending_cannot_cover=ensures_empty_only_when_the_outputs_worth_spending_cannot_cover,
+                   ensures_confirmed_first=ensures_confirmed_first)
+    for f in clauses.values():
+        f.__signature__ = inspect.Signature([inspect.Parameter('result', inspect.Parameter.POSITIONAL_OR_KEYWORD)] + params)
+
+    def samples():
+        import random
+        r = random.Random(n)
+        for _ in range(400):
+            rate = r.choice([0, 1, 50, 1000])
+            d = dict(target=r.choice([1, 5, 9, 10, 100, 7400, CENT, COIN, 3 * COIN]), rate=rate, floor=r.choice([0, 1]))
+            for i in range(n):
+                d[f"a{i}"] = r.choice([1, 99, 100, IN_SIZE * rate, IN_SIZE * rate + 1, 9999, 10 ** 4, CENT, COIN, 3 * COIN + 7400, 10 ** 12])
+                d[f"v{i}"] = r.random() < .6
+            yield d
+
+    body = dict(inputs=types, run=staticmethod(run), samples=staticmethod(samples), sym_unroll_limit=12,
+                note="400 seeded cases: amounts on band borders (99/100/9999/10^4), at the spending-fee border, targets 1..3 LBC",
+                __doc__=f"get_and_reserve_spendable_utxos + _get_spendable_utxos (the sqlite chooser) over a table of {n} unreserved P2PKH "
+                        f"row(s) with symbolic amounts (below 10^13 dewies) and confirmation flags: it flags exactly the outputs it returns, "
+                        f"they are worth spending and cover the target, it returns nothing only when the outputs worth spending cannot "
+                        f"cover the target, confirmed outputs of a band go first")
+    body.update({k: staticmethod(v) for k, v in clauses.items()})
+    proof("C03", f"chooser[{n}]")(type('Chooser', (), body))
+
+
+make_chooser_proof(1)
+make_chooser_proof(2)
+
+
 # ------------------------------------------------------------------ bounded: the real ledger, database and accounts
 
 SEED = "carbon smart garage balance margin twelve chest sword toast envelope bottom stomach absent"
@@ -632,6 +754,8 @@ class RealLedgerConcurrent:
 
 
 TRUSTED = [
+    "the SELECT of the sqlite chooser returns the unreserved rows of the amount band ascending by amount (ties: larger height first) and its "
+    "UPDATE flags the listed txoids (table model FakeRowTable; real sqlite in the bounded stand-ins)",
     "call-site contract of the SQL layer used by the deductive proofs: account.get_utxos returns the unreserved unspent outputs of the "
     "account, reserve_outputs/release_outputs set and clear the flag (cross-checked on real sqlite by the bounded stand-ins)",
     "asyncio.Lock / sleep / gather as modelled in pyvc/pymodels.py; struct/BytesIO/sha256 models of the serialiser (C05)",
@@ -640,8 +764,8 @@ TRUSTED = [
 NOT_DECIDED = [
     "more than 2 spendable outputs / 1 requested output symbolically (the bounded stand-ins use up to 6); name-fee outputs; the "
     "five-round edge case of builds with no requested output",
-    "the sqlite coin chooser's own body symbolically (its call-site contract is used by create[*,sqlite]; its behaviour is bounded-checked "
-    "on real sqlite; fixed findings F7, F7b)",
+    "the sqlite chooser over more than 2 rows / amounts of 10^13 dewies and more symbolically (chooser[1], chooser[2] execute its real body "
+    "over a table model; create[*,sqlite] uses its call-site contract; real sqlite in the bounded stand-ins; fixed findings F7, F7b, F7c)",
     "reading R-C03-1: 'cannot cover the cost' leaves closest_match / random_draw / sqlite the room they ask for a change output "
     "(a fixed number of input/output costs); 'standard', 'prefer_confirmed', 'only_confirmed' are judged exactly",
     "cancellation of a build (CancelledError is not an Exception: a cancelled build keeps its reservation)",
